@@ -147,4 +147,19 @@ def judgeRaw (payload impl : String) (splitMode : Bool := false) : Verdict :=
     | _, _ => .bad "bad-case"
   | _ => .bad "bad-case"
 
+/-- redis.bigreply (C07): a reply array of n elements (n around 2^20), then a second command and its reply; the
+    conversation is built from n by the harness, what must be reported is computed from n here: two pairs, the
+    first reply with all n elements (command name, key, n - 2 in the value), the second answered by PONG -/
+def judgeBigReply (payload impl : String) : Verdict :=
+  match Sx.parse payload with
+  | some (.list [nSx]) =>
+    match nSx.asInt? with
+    | some n =>
+      let want := s!"(big (pairs 2) (xs {n - 2}) (second simple #504f4e47) (c eof) (s eof))"
+      let ok := impl == want
+      { corr := ok, implSpec := ok, modelSpec := true, tags := [], nontrivial := true, cls := "bigreply",
+        model := want, spec := want }
+    | none => .bad "bad-case"
+  | _ => .bad "bad-case"
+
 end KsVerif.Redis.Driver
